@@ -2,7 +2,7 @@
 import ast
 
 from ..core import AnalysisError, src
-from ..pysym import SymExec, show, subterms
+from ..pysym import SymExec, show, subterms, str_parts
 from ..rules_pyx import N, C, A
 from .. import codec
 
@@ -221,7 +221,9 @@ def check(repo, rep, tier):
     rep.check(ct == ntoks[:4], 'R8.4', wc, 'conll_of:node-fragment', 'the conll node fragment is the AUTO node header "(<T cat head arity>"',
               'conll node fragment %s differs from the AUTO node header %s' % ([codec.tok_text(t) for t in ct], [codec.tok_text(t) for t in ntoks[:4]]))
     r = cn[2]
-    rep.check(r is not None and r[0] == 'binop' and r[1] == '+' and r[3] == C(' )'), 'R8.4', wc, 'conll_of:closing',
+    rparts = str_parts(r) if r is not None else None
+    rep.check(bool(rparts) and len(rparts) >= 2 and rparts[-1] == ' )' and not any(isinstance(x, str) and ')' in x for x in rparts[:-1]),
+              'R8.4', wc, 'conll_of:closing',
               'the closing " )" of a node is appended after its last child', 'conll node result is %s' % (show(r)[:80] if r else None))
     sub = [e[1] for e in cl[0].events if e[0] == 'call' and e[1][1][0] == 'attr' and e[1][1][2] == 'join' and e[1][1][1] == C(' ')]
     rep.check(bool(sub), 'R8.4', wc, 'conll_of:join', 'pending fragments are joined with a blank', 'pending fragments are not joined with a blank')
